@@ -83,6 +83,12 @@ RScan(ret, vec, es) ==
                  /\ ret = (IF AllChunksOk THEN 1 ELSE 0 - 1)
     /\ UNCHANGED rvars
 
+\* C12: a call that reads the lead or the header (zck_read_lead, zck_validate_lead, zck_read_header) during which a read
+\* or seek on the input failed has not read what it reports on: it must not report success
+RLeadCall(ret, failed) ==
+    /\ failed => ret # 1
+    /\ UNCHANGED rvars
+
 \* whole-data validation alone
 RValidateData(ret, es) ==
     /\ phase = "open"
